@@ -210,3 +210,42 @@ def c10(tier):
     js += with_witness(J("cells2edge_r1", "C10_edges.c", ["-DCELLS2EDGE", "-DRES=1"], unwind=3, est=30, mem="M"))[1:]
     js += with_witness(J("anydest_r0", "C10_edges.c", ["-DANYDEST", "-DRES=0"], unwind=2, us={"harness.0": 8}, est=30, mem="M"))[1:]
     return js
+
+
+UP7_DEFS = {"coordijk": ["-D_upAp7=_upAp7_real", "-D_upAp7r=_upAp7r_real"]}
+UP7_DEFS_CHK = {"coordijk": ["-D_upAp7=_upAp7_real", "-D_upAp7r=_upAp7r_real", "-D_upAp7Checked=_upAp7Checked_real", "-D_upAp7rChecked=_upAp7rChecked_real"]}
+
+
+def up7_lemma(logb=10, checked=False):
+    """L-UP7 lemma jobs for |i|,|j|,|k| <= 2^logb (the range the composite harnesses assert)."""
+    js = []
+    for r in (False, True):
+        defs = ["-DB=(1<<%d)" % logb] + (["-DR"] if r else []) + (["-DCHECKED"] if checked else [])
+        nm = "lemma_up7%s%s_b%d" % ("r" if r else "", "chk" if checked else "", logb)
+        js += with_witness(J(nm, "L_up7.c", defs, unwind=3, est=20, bound="|i|,|j|,|k| <= 2^%d" % logb, core=True, timeout=1500))
+    return js
+
+
+# ------------------------------------------------------------------------------------------- C03
+@prop("C03",
+      functions=["getNumCells", "res0CellCount", "pentagonCount", "getPentagons", "getRes0Cells", "setH3Index", "cellToChildrenSize", "isPentagon", "_h3ToFaceIjk", "_h3ToFaceIjkWithInitializedFijk", "_faceIjkToH3", "_adjustOverageClassII", "_upAp7 (lemma)", "_upAp7r (lemma)", "_downAp7", "_downAp7r", "_neighbor", "_ijkNormalize", "_unitIjkToDigit"],
+      bounds={"quick": "counts: all int resolutions; getPentagons: all int res x all valid cells of res 0,1,7,15; getRes0Cells: all valid res-0 cells; FaceIJK round trip: all valid cells of res 0-1",
+              "thorough": "getPentagons x all valid cells of every resolution; FaceIJK round trip: all valid cells of res 0-3"},
+      outside="the two trigonometric legs of latLngToCell(cellToLatLng(h)) (no bit-precise libm model); FaceIJK round trip above res 3 (SAT cannot invert the aperture-7 arithmetic at larger magnitudes)",
+      assumptions=["L-UP7 integer model of _upAp7/_upAp7r, proved equal to the real functions on the asserted range in the same run"],
+      stubs=["_upAp7, _upAp7r -> integer model (FIJK jobs only)"])
+def c03(tier):
+    js = []
+    js += with_witness(J("counts", "C03_counts.c", ["-DCOUNTS"], unwind=17, us={"harness.0": 123, "harness.1": 123, "harness.2": 123, "_ipow.0": 6}, est=20, bound="all int resolutions"))
+    js += with_witness(J("res0", "C03_counts.c", ["-DRES0"], unwind=17, est=10, bound="all valid res-0 cells, all slots"))
+    for r in ALLRES:
+        t = "quick" if r in (0, 1, 7, 15) else "thorough"
+        j = J("pents_r%d" % r, "C03_counts.c", ["-DPENTS", "-DRES=%d" % r], unwind=17, us={"harness.0": 15, "harness.1": 13, "setH3Index.0": 17}, est=20, tier=t, bound="all int res, all valid cells of res %d" % r)
+        js += with_witness(j, tier=t) if r in (1, 15) else [j]
+    js += up7_lemma(10)
+    for r in (0, 1, 2, 3):
+        t = "quick" if r <= 1 else "thorough"
+        j = J("fijk_r%d" % r, "C03_counts.c", ["-DFIJK", "-DRES=%d" % r, "-DUPB=(1<<10)"], unwind=r + 2, us={"_faceIjkToH3.0": r + 2}, unit_defs=UP7_DEFS, est=100 + 200 * r, mem="M", tier=t, timeout=3000,
+              bound="all valid cells of res %d" % r)
+        js += with_witness(j, tier=t) if r == 1 else [j]
+    return js
